@@ -12,6 +12,12 @@ theorem bitLen_le_of_lt (a n : Nat) (h : a < 2 ^ n) : bitLen a ≤ n := by
     have : 2 ^ n ≤ 2 ^ (bitLen a - 1) := Nat.pow_le_pow_right (by norm_num) (by omega)
     omega
 
+theorem bitLen_mono {a b : Nat} (h : a ≤ b) : bitLen a ≤ bitLen b := by
+  rcases Nat.eq_zero_or_pos b with h0 | hp
+  · subst h0; have : a = 0 := by omega
+    subst this; exact Nat.le_refl _
+  · exact bitLen_le_of_lt a _ (Nat.lt_of_le_of_lt h (bitLen_spec b hp).2.1)
+
 theorem rrSizes_head_eq (logk fuel b : Nat) : (rrSizes logk (fuel + 1) b).head? = some b := by
   unfold rrSizes
   by_cases hb : b = 0
